@@ -14,6 +14,7 @@ result type together with `C02_server_eq` / `C02_client_eq`.
 import WowSrp.Model.Srp
 import WowSrp.Lemmas.Layout
 namespace WowSrp
+open WowSrp.Layout
 
 /-! ### the two decisions -/
 
